@@ -720,21 +720,64 @@ func recipeOneof(c *ctx) {
 	if c.info == nil {
 		return
 	}
+	// a group is a oneof of the message itself or one promoted from an embedded message (then the holder
+	// sits below the embedded struct(s) named by via; a nil embedded pointer means: no branch)
 	groups := map[string][]*spec.EField{}
 	for _, f := range c.info.Fields {
-		if f.Oneof != "" && len(f.Via) == 0 {
-			groups[f.Oneof] = append(groups[f.Oneof], f)
+		if f.Oneof != "" {
+			k := strings.Join(append(append([]string{}, f.Via...), f.Oneof), "\x00")
+			groups[k] = append(groups[k], f)
 		}
 	}
 	gi := 0
-	for _, g := range spec.SortedKeys(groups) {
+	for _, gk := range spec.SortedKeys(groups) {
 		gi++
-		bs := groups[g]
+		bs := groups[gk]
+		g, via := bs[0].Oneof, bs[0].Via
 		sort.Slice(bs, func(i, j int) bool { return bs[i].GoName < bs[j].GoName })
-		holderField, ok := c.rt.FieldByName(g)
-		if !ok {
-			c.Oracle("C07", c.id("oneof"), false, "no-holder", "struct has no oneof holder "+g)
+		ht := c.rt
+		okT := true
+		for _, p := range via {
+			sf, ok := ht.FieldByName(p)
+			if !ok {
+				okT = false
+				break
+			}
+			ht = sf.Type
+			if ht.Kind() == reflect.Ptr {
+				ht = ht.Elem()
+			}
+		}
+		holderField, ok := ht.FieldByName(g)
+		if !ok || !okT {
+			c.Oracle("C07", c.id("oneof"), false, "no-holder", "struct has no oneof holder "+strings.Join(append(append([]string{}, via...), g), "."))
 			continue
+		}
+		// holder of the group inside a struct value (absent when an embedded pointer on the way is nil)
+		holderOf := func(st *GV) *GV {
+			if st == nil {
+				return nil
+			}
+			h, ok := ResolveVia(st, via)
+			if !ok {
+				return &GV{K: "o", Nil: true}
+			}
+			return h.Field(g)
+		}
+		// the struct value with the holder set (embedded pointers on the way allocated); a nil holder on a
+		// promoted group leaves the embedded pointers as they are in base
+		setHolder := func(base *GV, h *GV) *GV {
+			if len(via) == 0 {
+				o := CloneGV(base)
+				o.SetField(g, h)
+				return o
+			}
+			if h.Nil {
+				return CloneGV(base)
+			}
+			probe := *bs[0]
+			probe.GoName = h.Keys[0]
+			return c.withField(base, &probe, h.Elems[0])
 		}
 		mk := func(b *spec.EField, r *Rnd, m Mode) *GV {
 			if b == nil {
@@ -769,13 +812,12 @@ func recipeOneof(c *ctx) {
 					if pri != nil {
 						pn = pri.GoName
 					}
-					r := c.rnd.Fork(hashName(fmt.Sprintf("%s/%s/%s/%d", g, an, pn, variant)))
-					v := c.zero()
+					r := c.rnd.Fork(hashName(fmt.Sprintf("%s/%s/%s/%d", strings.Join(append(append([]string{}, via...), g), "."), an, pn, variant)))
 					m := MFull
 					if variant >= 1 && act != nil {
 						m = MZero // active branch with zero payload
 					}
-					v.SetField(g, mk(act, r, m))
+					v := setHolder(c.zero(), mk(act, r, m))
 					id, tr := c.To("oneof-to", v, EmptyOf(c.objTy))
 					if tr.Panic != "" {
 						c.Oracle("C07", id, false, "panic", "CopyTo panicked")
@@ -797,8 +839,7 @@ func recipeOneof(c *ctx) {
 							a.Null, a.Unknown = false, false
 						}
 					}
-					prior := c.zero()
-					prior.SetField(g, mk(pri, r.Fork(9), MFull))
+					prior := setHolder(c.zero(), mk(pri, r.Fork(9), MFull))
 					id2, fr := c.From("oneof-from", obj, prior)
 					if fr.Panic != "" {
 						c.Oracle("C07", id2, false, "panic", "CopyFrom panicked")
@@ -806,7 +847,7 @@ func recipeOneof(c *ctx) {
 					}
 					if variant == 2 {
 						// exactly that branch with that (zero) value, not its normal form
-						want, got := v.Field(g), fr.Val.Field(g)
+						want, got := holderOf(v), holderOf(fr.Val)
 						ok := got != nil && want != nil && want.BranchName() != "" && got.BranchName() == want.BranchName() &&
 							got.Elems0() != nil && want.Elems0() != nil && EqualGV(c.p.b.NF(want.Elems0(), nil), c.p.b.NF(got.Elems0(), nil))
 						what := ""
@@ -817,13 +858,13 @@ func recipeOneof(c *ctx) {
 						continue
 					}
 					// compared on the fields the schema describes (an excluded field of a branch message is not copied)
-					want := Described(c.info, c.p.b.NF(v, c.rt)).Field(g)
-					got := Described(c.info, c.p.b.NF(fr.Val, c.rt)).Field(g)
+					want := holderOf(Described(c.info, c.p.b.NF(v, c.rt)))
+					got := holderOf(Described(c.info, c.p.b.NF(fr.Val, c.rt)))
 					if want == nil || got == nil {
-						want, got = c.p.b.NF(v.Field(g), holderField.Type), c.p.b.NF(fr.Val.Field(g), holderField.Type)
+						want, got = c.p.b.NF(holderOf(v), holderField.Type), c.p.b.NF(holderOf(fr.Val), holderField.Type)
 					}
 					if !EqualGV(want, got) {
-						fails = append(fails, fmt.Sprintf("holder %s: read back %s, expected %s (prior %s)", g, GVSx(got), GVSx(want), GVSx(prior.Field(g))))
+						fails = append(fails, fmt.Sprintf("holder %s: read back %s, expected %s (prior %s)", g, GVSx(got), GVSx(want), GVSx(holderOf(prior))))
 					}
 					if len(fails) > 0 {
 						sig := "from-holder"
